@@ -105,7 +105,8 @@ BOUNDED = {
     'C20': dict(what='the REAL backtest() / run_backtests() on multi-thread (4 workers) and current-thread tokio runtimes with a recording GlobalData (one log per engine), a '
                      'timing-independent EveryK strategy, mock execution, in-memory and paced market data: every dataset event once and in order before shutdown, summaries '
                      'computed from the own engine, concurrent (N = 2..8) equals alone (orders always; fills / positions / balances / PnL exactly with the paced feed, as a '
-                     'sub-multiset with the in-memory feed)',
+                     'sub-multiset with the in-memory feed); a market stream that PANICS at record k: a backtest that returns a summary has consumed the whole dataset; recorded '
+                     'datasets with recoverable error records / reconnect notices at every position through the real with_error_handler: every OK event still fed, in order',
                 bound={'quick': 'dataset sizes 0,1,2,7,30,64; ~200 batches, 3 concurrent repetitions', 'thorough': 'plus sizes 3,12,150; ~4000 batches, 6 repetitions'}),
     'C06': dict(what='the REAL Binance spot and futures L2 transformers behind the REAL with_termination_on_error + with_reconnection_events: two instruments on one '
                      'connection followed by a clean second connection; deliveries perturbed by drop / duplicate / swap / replay of an old prefix / late or early start / '
